@@ -14,6 +14,13 @@ up front with the same threshold; counter 0 is current at the start):
   n                     the current counter is replaced by a fresh one
   i<j>                  counter j becomes current                (no record)
   q<n>                  most_common(n) on the current counter    (no state change)
+  e<j> / k<j>           update(counter j .elements()) / update(counter j .keys())   (j may be the current one)
+  x                     add(a key the counter cannot take: unhashable / __hash__ raises)
+  `!` as an element of `u`/`U` (an unhashable key, or the point where the iterable raises) or in place of a
+  `<k>:<c>` entry of `m`/`M`/the keyword part (non-integer count, unhashable key, `items()` raising there):
+  the call raises at that point; its record is `!raised ` followed by the dump (`TC.attempt`: the additions
+  before the exception took effect, nothing after it - keyword counts are not reached when the positional
+  part raises)
 Output: one `;`-separated record per op except `i`.  After a mutator the record is
 the full dump of every reader of EVERY counter (` | `-separated; so that an effect on
 a counter that was not addressed shows); after `q<n>` it is the returned list.
@@ -66,6 +73,34 @@ def St.set (st : St) (s : TC Nat) : St := { st with insts := st.insts.set st.cur
 
 def dumpAll (nk : Nat) (st : St) : String := " | ".intercalate (st.insts.map (dump nk))
 
+/-- `<k>,<k>,!,<k>`: `!` = an element the call raises at -/
+def natListX? (s : String) : Option (List (Option Nat)) :=
+  if s = "-" ∨ s = "" then some [] else
+  (splitOnChar s ',').foldr (fun w acc =>
+    match acc with
+    | none => none
+    | some l => if w = "!" then some (none :: l) else w.toNat?.map fun n => some n :: l) (some [])
+
+/-- `<k>:<c>,!,<k>:<c>`: `!` = an entry the call raises at -/
+def parsePairsX? (s : String) : Option (List (Option (Nat × Nat))) :=
+  if s = "-" ∨ s = "" then some [] else
+  (splitOnChar s ',').foldr (fun w acc =>
+    match acc with
+    | none => none
+    | some l => if w = "!" then some (none :: l) else
+      match splitOnChar w ':' with
+      | [a, b] => match a.toNat?, b.toNat? with
+        | some x, some y => some (some (x, y) :: l)
+        | _, _ => none
+      | _ => none) (some [])
+
+/-- a call that may raise part-way -/
+def attempt (nk : Nat) (st : St) (xs : List (Option Nat)) : Option (St × Option String) :=
+  st.get.map fun s =>
+    let r := s.attempt xs
+    let st' := st.set r.1
+    (st', some ((if r.2 then "!raised " else "") ++ dumpAll nk st'))
+
 def mutate (nk : Nat) (st : St) (f : TC Nat → TC Nat) : Option (St × Option String) :=
   st.get.map fun s => let st' := st.set (f s); (st', some (dumpAll nk st'))
 
@@ -73,18 +108,33 @@ def stepTok (w nk : Nat) (st : St) (tok : String) : Option (St × Option String)
   let rest := (tok.drop 1).toString
   match tok.front with
   | 'a' => rest.toNat?.bind fun k => mutate nk st (·.step (.add k))
-  | 'u' => (natList? rest).bind fun ks => mutate nk st (·.step (.updateKeys ks))
-  | 'm' => (parsePairs? rest).bind fun kcs => mutate nk st (·.step (.updateMap kcs))
+  | 'x' => if rest = "" then attempt nk st [none] else none
+  | 'u' => if rest.contains '!' then (natListX? rest).bind fun xs => attempt nk st xs
+           else (natList? rest).bind fun ks => mutate nk st (·.step (.updateKeys ks))
+  | 'm' => if rest.contains '!' then (parsePairsX? rest).bind fun ps => attempt nk st (expandX ps)
+           else (parsePairs? rest).bind fun kcs => mutate nk st (·.step (.updateMap kcs))
   | 'U' => match splitOnChar rest '+' with
-    | [a, b] => match natList? a, parsePairs? b with
+    | [a, b] =>
+      if rest.contains '!' then
+        match natListX? a, parsePairsX? b with
+        | some xs, some ps => attempt nk st (xs ++ expandX ps)
+        | _, _ => none
+      else match natList? a, parsePairs? b with
       | some ks, some kws => mutate nk st (·.step (.updateKeysKw ks kws))
       | _, _ => none
     | _ => none
   | 'M' => match splitOnChar rest '+' with
-    | [a, b] => match parsePairs? a, parsePairs? b with
+    | [a, b] =>
+      if rest.contains '!' then
+        match parsePairsX? a, parsePairsX? b with
+        | some ps, some qs => attempt nk st (expandX ps ++ expandX qs)
+        | _, _ => none
+      else match parsePairs? a, parsePairs? b with
       | some kcs, some kws => mutate nk st (·.step (.updateMapKw kcs kws))
       | _, _ => none
     | _ => none
+  | 'e' => rest.toNat?.bind fun j => st.insts[j]?.bind fun src => mutate nk st (·.step (.updateKeys src.elements))
+  | 'k' => rest.toNat?.bind fun j => st.insts[j]?.bind fun src => mutate nk st (·.step (.updateKeys src.keys))
   | 't' => rest.toNat?.bind fun j => st.insts[j]?.bind fun src => mutate nk st (·.absorb src)
   | 'n' => if rest = "" then mutate nk st (fun _ => TC.init w) else none
   | 'i' => rest.toNat?.bind fun j => if j < st.insts.length then some ({ st with cur := j }, none) else none
